@@ -30,6 +30,7 @@ Apply(e) ==
       [] e.ev = "cancel" -> PCancel(e.id)
       [] e.ev = "quiet"  -> PQuiet(SeqToSet(e.blk))
       [] e.ev \in {"call", "ret", "leak", "note", "end"} -> UNCHANGED pvars
+      [] e.ev \in {"step", "teardown"} -> UNCHANGED pvars   \* only in traces recorded for BroadcastXTrace
       [] OTHER           -> PUnexplained
 
 TStep ==
